@@ -263,7 +263,7 @@ def random_layout(rng, max_servers, max_shares, ids=None):
 
 # FIXED CORPUS (runs first, independent of VERIF_SEED): one minimal input per known mechanism -- the two defects repaired in
 # /repo (9abb482 shared indexedShares list, b0ebc0d dropped writable peer) and the seeded changes C07-a, C07-b; C07-c (stale
-# plan in PeerSelector) is SELECTOR_CORPUS[0] plus the grid selection run with GRID_CORPUS_SEED
+# plan in PeerSelector) is SELECTOR_CORPUS[0] plus GRID_CORPUS (which also holds C07-e: timed-out allocation)
 CORPUS = [
     # DESIGN §3 probe (ids relabelled w0,w1,r0,r1 -> 0,1,2,3): read-only peer gets a share it lacks on the unfixed tree
     ([0, 1], [2, 3], [0], [(1, [0]), (2, [0])]),
@@ -293,7 +293,6 @@ SELECTOR_CORPUS = [
     # the same after add_peer_with_share / mark_bad_peer / add_peer between the plans
     (2, [("a", 0), ("a", 1), ("a", 2), ("g",), ("s", 1, 0), ("g",), ("b", 2), ("g",), ("a", 3), ("g",), ("r", 1), ("g",)]),
 ]
-GRID_CORPUS_SEED = 20070707
 
 
 def corpus_only():
@@ -471,7 +470,7 @@ def run_direct(ctx, part="all"):
 
 # ----------------------------------------------------------------------------- the caller: PeerSelector histories
 
-OP_NAMES = {"a": "add_peer", "s": "add_peer_with_share", "r": "mark_readonly_peer", "b": "mark_bad_peer",
+OP_NAMES = {"f": "allocation_failed", "a": "add_peer", "s": "add_peer_with_share", "r": "mark_readonly_peer", "b": "mark_bad_peer",
             "g": "get_share_placements"}
 
 
@@ -678,32 +677,76 @@ def run_selector(ctx, histories=None, part="all"):
         ctx.case(("sel-bytes", total, tuple(ops)) if any(o[0] == "s" for o in ops) else None)
 
 
-def run_grid(ctx, seeds=None):
-    """the uploader's real server selection on the in-process grid with one server failing allocate_buckets():
-    5 healthy servers remain for 4 shares (happy=4), so selection must succeed"""
+GRID_CORPUS = [
+    # seeded C07-c (stale plan after the demotion) and the plain failing-server scenario: allocate_buckets raises
+    {"seed": 20070707, "policy": "random", "fault": "error", "method": "allocate_buckets", "rank": 1},
+    # seeded C07-e (a timed-out allocation no longer demotes the server): the server never answers allocate_buckets, the
+    # 15 s query timeout fires; first / second / last server asked
+    {"seed": 1, "policy": "fifo", "fault": "hang", "method": "allocate_buckets", "rank": 1},
+    {"seed": 2, "policy": "random", "fault": "hang", "method": "allocate_buckets", "rank": 2},
+    {"seed": 5, "policy": "lifo", "fault": "hang", "method": "allocate_buckets", "rank": 4},
+    # the existing-shares query fails / times out: the server is bad from the first plan on
+    {"seed": 3, "policy": "random", "fault": "hang", "method": "get_buckets", "rank": 1},
+    {"seed": 4, "policy": "fifo", "fault": "error", "method": "get_buckets", "rank": 6},
+]
+SIG_STILL_WRITABLE = "failed-server-still-writable:"     # + error | hang
+
+
+def grid_case(seed, policy="random", fault="error", method="allocate_buckets", rank=1):
+    return {"seed": seed, "policy": policy, "fault": fault, "method": method, "rank": rank}
+
+
+def run_grid(ctx, cases=None):
+    """the uploader's real server selection on the in-process grid (6 servers, k=2, happy=4, n=4) with one server whose
+    allocate_buckets / get_buckets fails -- raises, or never answers so that the 15 s query timeout fires (the virtual clock
+    jumps) -- at the first / second / last server asked.  5 healthy servers remain for 4 shares, so selection must succeed;
+    and from the plan after the failure on, the failed server must not be in the writable set the plan is computed from."""
     import grid
+    from allmydata.immutable import upload
     from allmydata.immutable.upload import Tahoe2ServerSelector, UploadStatus
     from allmydata.interfaces import UploadUnhappinessError
     from allmydata.util.happinessutil import servers_of_happiness, merge_servers
     from allmydata.util import hashutil
-    if seeds is None:
-        base = ctx.subrng("grid").randrange(1 << 20)
-        seeds = [base + i for i in range(ctx.budget(2, 40))]
-    for seed in seeds:
-        case = {"grid_selection": {"seed": seed, "servers": 6, "k": 2, "happy": 4, "n": 4}}
-        with grid.Runtime(seed=seed, policy="random") as rt:
+    if cases is None:
+        rng = ctx.subrng("grid")
+        cases = []
+        for _ in range(ctx.budget(6, 120)):
+            method = rng.choice(["allocate_buckets", "allocate_buckets", "get_buckets"])
+            cases.append(grid_case(rng.randrange(1 << 20), rng.choice(["random", "random", "fifo", "lifo"]),
+                                   rng.choice(["error", "hang", "hang"]), method,
+                                   rng.choice([1, 2, 4] if method == "allocate_buckets" else [1, 2, 6])))
+    descr, impl, lines = [], [], []
+    for gc in cases:
+        seed = gc["seed"]
+        case = {"grid_selection": dict(gc, servers=6, k=2, happy=4, n=4)}
+        plans = []
+        orig = upload.PeerSelector.get_share_placements
+
+        def recording(self, plans=plans, orig=orig):
+            plan = orig(self)
+            plans.append({"plan": dict(plan), "peers": set(self.peers), "readonly": set(self.readonly_peers),
+                          "bad": set(self.bad_peers)})
+            return plan
+        with grid.Runtime(seed=seed, policy=gc["policy"]) as rt:
             g = grid.Grid(grid.fresh_dir("c07"), rt, num_servers=6, num_clients=1, k=2, happy=4, n=4, max_segment_size=64)
             try:
                 victim = []
+                asked = []
+                failed_at = []          # number of plans computed when the fault first struck
 
                 def make_fault(i):
                     def fault(methname, args, kwargs):
-                        # the first server asked to really allocate something breaks and stays broken for allocations
-                        if methname == "allocate_buckets" and args[3]:
-                            if not victim:
+                        # the rank-th distinct server that is asked (for allocate_buckets: asked to really allocate something)
+                        # breaks for that method and stays broken
+                        if methname == gc["method"] and (methname != "allocate_buckets" or args[3]):
+                            if i not in asked:
+                                asked.append(i)
+                            if not victim and len(asked) == gc["rank"]:
                                 victim.append(i)
-                            if victim[0] == i:
-                                return "error"
+                            if victim and victim[0] == i:
+                                if not failed_at:
+                                    failed_at.append(len(plans))
+                                return gc["fault"]
                         return None
                     return fault
                 for i in g.wrappers:
@@ -711,25 +754,67 @@ def run_grid(ctx, seeds=None):
                 c = g.clients[0]
                 si = hashutil.tagged_hash(b"c07-grid", b"%d" % seed)[:16]
                 sel = Tahoe2ServerSelector("c07g%d" % seed, upload_status=UploadStatus())
-                d = sel.get_shareholders(c.storage_broker, c._secret_holder, si, 100, 25, 4, 4, 2, 4, 500)
+                upload.PeerSelector.get_share_placements = recording
                 try:
-                    (trackers, already) = rt.wait(d)
-                except UploadUnhappinessError as e:
-                    ctx.violation("server selection declared the upload unhappy although 5 healthy servers remain for 4 "
-                                  "shares (happy=4) after server #%s failed allocate_buckets: %s" % (victim, str(e)[:200]),
-                                  case, SIG_UNHAPPY)
-                    ctx.count("grid-selection:unhappy")
-                else:
-                    happiness = servers_of_happiness(merge_servers(already, trackers))
-                    vid = g.serverid(victim[0]) if victim else None
-                    used = set(t.get_serverid() for t in trackers)
-                    if happiness < 4 or vid in used:
-                        ctx.violation("server selection returned happiness %d (< 4) or kept the failing server" % happiness,
-                                      case, SIG_UNHAPPY)
-                    ctx.count("grid-selection:ok")
-                ctx.case(("grid-selection", seed))
+                    d = sel.get_shareholders(c.storage_broker, c._secret_holder, si, 100, 25, 4, 4, 2, 4, 500)
+                    outcome, trackers, already = "ok", [], {}
+                    try:
+                        (trackers, already) = rt.wait(d)
+                    except UploadUnhappinessError as e:
+                        outcome = "unhappy: " + str(e)[:200]
+                finally:
+                    upload.PeerSelector.get_share_placements = orig
+                num = {g.serverid(i): i for i in range(6)}
+                vid = g.serverid(victim[0]) if victim else None
+                used = set(t.get_serverid() for t in trackers)
+                happiness = servers_of_happiness(merge_servers(already, set(trackers))) if outcome == "ok" else None
             finally:
                 g.close()
+        to_num = lambda sid: num.get(sid, -1)
+        case["victim"] = victim[0] if victim else None
+        case["plans"] = [{"plan": sorted((sh, to_num(p)) for sh, p in pl["plan"].items()),
+                          "writable": sorted(to_num(p) for p in pl["peers"]),
+                          "readonly": sorted(to_num(p) for p in pl["readonly"])} for pl in plans]
+        ctx.case(("grid-selection", repr(sorted(gc.items()))))
+        ctx.count("grid-selection:%s-%s" % (gc["method"], gc["fault"]))
+        # 1. the verdict: 5 healthy servers for 4 shares, happy = 4
+        if outcome != "ok":
+            ctx.violation("server selection declared the upload unhappy although 5 healthy servers remain for 4 shares "
+                          "(happy=4) after server #%s %s on %s: %s"
+                          % (victim, "raised" if gc["fault"] == "error" else "never answered (query timeout)", gc["method"], outcome),
+                          case, SIG_UNHAPPY)
+            ctx.count("grid-selection:unhappy")
+        elif happiness < 4 or (vid is not None and vid in used):
+            ctx.violation("server selection returned happiness %d (< 4) or kept the failing server" % happiness, case, SIG_UNHAPPY)
+        else:
+            ctx.count("grid-selection:ok")
+        # 2. from the plan after the failure on, the failed server is not writable
+        if victim and failed_at:
+            for k, pl in enumerate(plans):
+                if k >= failed_at[0] and vid in pl["peers"]:
+                    ctx.violation("plan #%d was computed with server #%d still in the writable set although its %s had %s "
+                                  "before that plan was requested" % (k + 1, victim[0], gc["method"],
+                                                                     "raised" if gc["fault"] == "error" else "timed out"),
+                                  case, SIG_STILL_WRITABLE + gc["fault"])
+                    ctx.count("clause-fails:" + SIG_STILL_WRITABLE + gc["fault"])
+                    break
+        # 3. the selector's server sets at the last plan vs the model after the specification history: every server added;
+        #    a failed existing-shares query marks the server bad; a failed allocation (any reason, incl. timeout) demotes it
+        if plans:
+            ops = [("a", i) for i in range(6)]
+            if victim and failed_at and failed_at[0] < len(plans):
+                ops.append(("b", victim[0]) if gc["method"] == "get_buckets" else ("f", victim[0]))
+            lines.append("sel 11 4 %s" % " ".join(enc_op(o) for o in ops))
+            last = plans[-1]
+            impl.append("S:%s|%s|%s" % (enc_ids(sorted(to_num(p) for p in last["peers"])),
+                                        enc_ids(sorted(to_num(p) for p in last["readonly"])),
+                                        enc_ids(sorted(to_num(p) for p in last["bad"]))))
+            descr.append(case)
+    model = ctx.model(lines)
+    if model is not None:
+        model = [m[m.rindex("S:"):].rsplit("|", 1)[0] for m in model]
+    ctx.compare("selector server sets at the last plan of a grid selection vs the model after the specification history "
+                "(failed get_buckets = mark_bad_peer, failed or timed-out allocate_buckets = allocationFailed)", descr, impl, model)
 
 
 # ----------------------------------------------------------------------------- re-upload on the grid: the planner's input
@@ -861,11 +946,11 @@ def run(ctx):
         # the fixed corpus first (no random generation before it)
         run_direct(ctx, part="corpus")
         run_selector(ctx, part="corpus")
-        run_grid(ctx, [GRID_CORPUS_SEED])
+        run_grid(ctx, GRID_CORPUS)
         run_reupload(ctx, REUPLOAD_CORPUS)
         if corpus_only():
-            ctx.note("VERIF_CORPUS_ONLY=1: only the fixed corpus was run (%d layouts, %d selector histories, 1 grid selection)"
-                     % (len(CORPUS), len(SELECTOR_CORPUS)))
+            ctx.note("VERIF_CORPUS_ONLY=1: only the fixed corpus was run (%d layouts, %d selector histories, %d grid selections, %d re-uploads)"
+                     % (len(CORPUS), len(SELECTOR_CORPUS), len(GRID_CORPUS), len(REUPLOAD_CORPUS)))
             return
         run_direct(ctx, part="rest")
         run_selector(ctx, part="rest")
@@ -882,7 +967,9 @@ def run(ctx):
             run_reupload(ctx, [c["grid_reupload"]])
             return
         if "grid_selection" in c:
-            run_grid(ctx, [c["grid_selection"]["seed"]])
+            gs = c["grid_selection"]
+            run_grid(ctx, [grid_case(gs["seed"], gs.get("policy", "random"), gs.get("fault", "error"),
+                                     gs.get("method", "allocate_buckets"), gs.get("rank", 1))])
             return
         run_direct(ctx)
         return
